@@ -16,7 +16,7 @@ def run(ctx):
     ctx.clause = ("(a) with a failed load (null corpus / group / translation unit) abidiff and abicompat can only "
                   "exit with the ERROR bit; (b) the dwarf loader never pairs a null corpus with STATUS_OK; (c) the "
                   "ABIXML reader returns a non-null result only after a null-checked full expansion of the root node")
-    ctx.rules = ["R-LOADFAIL", "R-LOADFAIL/L2", "R-EXPAND", "R-XMLSRC"]
+    ctx.rules = ["R-LOADFAIL", "R-LOADFAIL/L2", "R-EXPAND", "R-XMLSRC", "R-SYMSRC"]
     n_sites = 0
     for tool in ("abidiff", "abicompat"):
         P, I, main, rets = sr.analyse_tool(ctx, tool)
@@ -26,6 +26,8 @@ def run(ctx):
     sr.check_L2(ctx, P)
     expand_rule.run(ctx)
     check_xmlsrc(ctx)
+    from rules import C18
+    C18.check_symsrc(ctx)
     ctx.assume("libxml2's xmlTextReaderExpand fails on any unterminated subtree; elfutils reports unreadable ELF through the status the dwarf reader tests")
 
 
